@@ -418,6 +418,7 @@ func (s *configurationStore) Watch(ctx context.Context, ch chan<- configapi.Conf
 					}
 					if err := s.populate(ctx, configuration); err != nil {
 						log.Error(err)
+						close(ch)
 						return
 					}
 					select {
@@ -454,6 +455,7 @@ func (s *configurationStore) Watch(ctx context.Context, ch chan<- configapi.Conf
 					configuration.Version = uint64(entry.Version)
 					if err := s.populate(ctx, configuration); err != nil {
 						log.Error(err)
+						close(ch)
 						return
 					}
 					select {
